@@ -619,6 +619,59 @@ impl<'c, 'b> SDriver<'c, 'b> {
     }
 }
 
+
+/// Checks one successful parse() result against the stream model: delivered bytes are a prefix
+/// of E(s); stream_end only once the terminator header was fed and all of E(s) delivered; no
+/// stall once the terminator is buffered. Returns false (after recording the problem) on breach.
+pub fn model_check(d: &mut SDriver, m: &StreamModel, st: PStatus, dest: Option<usize>, fed_before: usize) -> bool {
+    let epoch_idx = d.epochs.len() - 1;
+    let Some(s) = d.active() else { return true };
+    let Some(si) = m.streams.iter().find(|x| x.rtype == s) else { return true };
+    let (dlen, ok_prefix) = {
+        let e = &d.epochs[epoch_idx];
+        (e.delivered.len(), si.content.starts_with(&e.delivered))
+    };
+    if !ok_prefix {
+        let e = &d.epochs[epoch_idx];
+        let first_bad = e.delivered.iter().zip(&si.content).take_while(|(a, b)| a == b).count();
+        d.problem(
+            "delivered-not-prefix",
+            format!("bytes delivered for stream {s} are not a prefix of the stream's content: first difference at stream offset {first_bad} (delivered {dlen}, content {})", si.content.len()),
+        );
+        return false;
+    }
+    if st.stream_end {
+        match si.term_off {
+            None => {
+                d.problem("premature-stream-end", format!("stream_end reported for stream {s} but the input contains no terminator for it"));
+                return false;
+            }
+            Some(t) => {
+                if d.fed < t + 8 {
+                    d.problem("premature-stream-end", format!("stream_end reported for stream {s} after {} bytes, its terminator header ends at {}", d.fed, t + 8));
+                    return false;
+                }
+                if dlen != si.content.len() {
+                    d.problem("stream-end-before-all-data", format!("stream_end reported for stream {s} with {dlen} of {} bytes delivered", si.content.len()));
+                    return false;
+                }
+                if !si.term_own {
+                    d.cnt.held_back += 1;
+                }
+            }
+        }
+    } else if let Some(t) = si.term_off {
+        // bounded progress: everything incl. the terminator header is in the parser, the call
+        // had room, yet nothing was delivered and no end reported
+        let had_room = dest.map_or(true, |l| l > 0);
+        if had_room && st.stream == 0 && fed_before >= t + 8 && m.abort_off.map_or(true, |a| a > t) {
+            d.problem("stalled", format!("all bytes up to the terminator of stream {s} (header ends at {}) were fed before this call, the call had room, yet it delivered nothing and did not report stream_end", t + 8));
+            return false;
+        }
+    }
+    true
+}
+
 // ------------------------------------------------------------------------------------------
 // random caller schedules
 
@@ -719,54 +772,13 @@ pub fn run_schedule_ext(d: &mut SDriver, rng: &mut Rng, chunk: &mut Chunking, po
         let fed_before = d.fed;
         let Some(st) = d.feed_parse(n, dest) else { return };
         // --- model checks
-        let epoch_idx = d.epochs.len() - 1;
         let active = d.active();
-        if let (Some(m), Some(s)) = (model, active) {
-            if let Some(si) = m.streams.iter().find(|x| x.rtype == s) {
-                let (dlen, ok_prefix) = {
-                    let e = &d.epochs[epoch_idx];
-                    (e.delivered.len(), si.content.starts_with(&e.delivered))
-                };
-                if !ok_prefix {
-                    let e = &d.epochs[epoch_idx];
-                    let first_bad = e.delivered.iter().zip(&si.content).take_while(|(a, b)| a == b).count();
-                    d.problem(
-                        "delivered-not-prefix",
-                        format!("bytes delivered for stream {s} are not a prefix of the stream's content: first difference at stream offset {first_bad} (delivered {dlen}, content {})", si.content.len()),
-                    );
-                    return;
-                }
-                if st.stream_end {
-                    match si.term_off {
-                        None => {
-                            d.problem("premature-stream-end", format!("stream_end reported for stream {s} but the input contains no terminator for it"));
-                            return;
-                        }
-                        Some(t) => {
-                            if d.fed < t + 8 {
-                                d.problem("premature-stream-end", format!("stream_end reported for stream {s} after {} bytes, its terminator header ends at {}", d.fed, t + 8));
-                                return;
-                            }
-                            if dlen != si.content.len() {
-                                d.problem("stream-end-before-all-data", format!("stream_end reported for stream {s} with {dlen} of {} bytes delivered", si.content.len()));
-                                return;
-                            }
-                            if !si.term_own {
-                                d.cnt.held_back += 1;
-                            }
-                        }
-                    }
-                } else if let Some(t) = si.term_off {
-                    // bounded progress: everything incl. the terminator header is in the parser,
-                    // the call had room, yet nothing was delivered and no end reported
-                    let had_room = dest.map_or(true, |l| l > 0);
-                    if had_room && st.stream == 0 && fed_before >= t + 8 && m.abort_off.map_or(true, |a| a > t) {
-                        d.problem("stalled", format!("all bytes up to the terminator of stream {s} (header ends at {}) were fed before this call, the call had room, yet it delivered nothing and did not report stream_end", t + 8));
-                        return;
-                    }
-                }
+        if let Some(m) = model {
+            if !model_check(d, m, st, dest, fed_before) {
+                return;
             }
         }
+        let epoch_idx = d.epochs.len() - 1;
         // --- advancing
         if let Some(s) = active {
             let pos = order.iter().position(|&t| t == s).unwrap_or(0);
